@@ -104,6 +104,10 @@ class ProcessWorker(Worker):
                 if force:
                     self._child.terminate()
                     self._child.join(timeout)
+                    if self._child.is_alive() and hasattr(self._child, 'kill'):
+                        # SIGTERM is not acted upon by a stopped process (and can be blocked or ignored): escalate
+                        self._child.kill()
+                        self._child.join(timeout)
                     # try:
                     #     self._comms.child_end.put((False, None))
                     #     self._comms.child_end.close()
